@@ -1,12 +1,14 @@
 /-
   C05 — no failure or internal error is ever lost: it reaches the report and the exit code.
-  Property theorems only; models in SV/Model/Engine.lean + Plan.lean, invariants in SV/Proofs/Engine.lean,
+  Property theorems only; models in SV/Model/Engine.lean + Plan.lean + C05Stat.lean (the CLI failure store),
+  invariants in SV/Proofs/Engine.lean + C05Stat.lean,
   tables regenerated from /repo in SV/Generated/Engine.lean.
 -/
 import SV.Proofs.Engine
 import SV.Proofs.Stateful
 import SV.Model.Plan
 import SV.Generated.Engine
+import SV.Proofs.C05Stat
 
 namespace SV.Props.C05
 open SV.Model.Engine SV.Model.Plan SV.Proofs.Engine
@@ -313,5 +315,224 @@ theorem stateful_run_end_reported (s : Suite) (h : s.ending ≠ .ok ∧ s.ending
   obtain ⟨h1, h2, h3, h4, h5⟩ := h
   unfold endOf
   cases he : s.ending <;> simp_all [Status.failing]
+
+/-! ### the CLI reporting layer: `Statistic.on_scenario_finished` and `ExecutionContext.on_event`
+
+`run h` is the store after the history `h` of finished scenarios; `allF` is what a consumer iterating
+`ctx.statistic.failures` (FAILURES section, JUnit report, failure counters) reads.  Case ids are fresh random strings
+(`generate_random_case_id`: 6 base-62 characters from an RNG of its own): the hypothesis `(caseIds h).Nodup` says that
+they do not collide, and `distinct_case_ids_needed` shows it cannot be dropped. -/
+
+section Store
+open SV.Model.C05Stat SV.Spec.C05Stat SV.Proofs.C05Stat
+
+/-- **No failure is lost by the store.** For every history of finished scenarios with pairwise distinct case ids,
+    every failure carried by a failing check of any scenario is held by exactly one group of the final store — whatever
+    came later under the same label (other phases, further stateful scenarios), the store only grows. -/
+theorem statistic_keeps_every_failure (h : List Recorder) (hid : (caseIds h).Nodup) (r : Recorder) (f : Nat)
+    (hr : r ∈ h) (hf : failsIn r f) : (allF (run h).failures).count f = 1 := by
+  have hi := run_inv h hid f
+  have ha := foldl_adds f h Stat.init r hr hf
+  rw [hi]
+  unfold ind
+  unfold run
+  simp [ha]
+
+/-- the first scenario / case in which a failure of the history is seen exists and is a case of the history that
+    carries it (so the next theorem is not vacuous) -/
+theorem first_seen_exists (h : List Recorder) (r : Recorder) (f : Nat) (hr : r ∈ h) (hf : failsIn r f) :
+    ∃ l c, firstSeen f h = some (l, c) ∧ (∃ r' ∈ h, r'.label = l ∧ c ∈ r'.cases) ∧ caseHas f c = true :=
+  firstSeen_of_failsIn f h r hr hf
+
+/-- **The failure is recorded with the request that caused it.** The group holding a failure is stored under the
+    label of the scenario and the id of the case where the failure was first seen, names that case, carries that
+    case's response and the code sample of one of that case's failing checks; `unique_failures_map` points to it. -/
+theorem statistic_failure_with_its_request (h : List Recorder) (hid : (caseIds h).Nodup) (f l : Nat) (c : CaseRec)
+    (hfs : firstSeen f h = some (l, c)) :
+    heldAt (run h).failures l c f = true ∧ ndGet f (run h).unique = some c.id := by
+  obtain ⟨⟨gs, g, h1, h2, h3, h4, h5, h6⟩, hu⟩ := foldl_location f l c h Stat.init (by simp [Stat.init, ndGet]) hfs hid
+  refine ⟨?_, hu⟩
+  unfold run
+  simp only [heldAt, h1, h2]
+  simp [h3, h4, h5, h6]
+
+/-- nothing is reported twice and nothing is invented -/
+theorem statistic_reports_nothing_else (h : List Recorder) (hid : (caseIds h).Nodup) (f : Nat) :
+    (allF (run h).failures).count f ≤ 1 ∧ (f ∈ allF (run h).failures → ∃ r ∈ h, failsIn r f) := by
+  have hi := run_inv h hid f
+  refine ⟨by rw [hi]; exact ind_le_one _ _, ?_⟩
+  intro hm
+  have hpos : 0 < (allF (run h).failures).count f := List.count_pos_iff.2 hm
+  rw [hi] at hpos
+  have hsome : (ndGet f (run h).unique).isSome = true := by
+    unfold ind at hpos
+    split at hpos
+    · assumption
+    · cases hpos
+  rcases foldl_unique_origin f h Stat.init hsome with h0 | h0
+  · simp [Stat.init, ndGet] at h0
+  · exact h0
+
+/-- one more finished scenario never removes a failure from the store -/
+theorem statistic_store_only_grows (h : List Recorder) (r : Recorder) (hid : (caseIds (h ++ [r])).Nodup) (f : Nat) :
+    (allF (run h).failures).count f ≤ (allF (run (h ++ [r])).failures).count f := by
+  have hid' : (caseIds h).Nodup := by
+    have : caseIds (h ++ [r]) = caseIds h ++ caseIds [r] := by simp [caseIds]
+    rw [this] at hid
+    exact (List.nodup_append.1 hid).1
+  rw [run_inv h hid' f, run_inv (h ++ [r]) hid f]
+  have : run (h ++ [r]) = onScenarioFinished (run h) r := by simp [run, List.foldl_append]
+  rw [this, osf_unique]
+  exact ind_mono_acc (run h) r f
+
+/-- the judge the harness applies to the store of the real `ExecutionContext` accepts the model's store -/
+theorem statistic_satisfies_judge (h : List Recorder) (hid : (caseIds h).Nodup) :
+    keepsAll h (run h).failures = true ∧ invented h (run h).failures = [] := by
+  constructor
+  · simp only [keepsAll, judge, List.all_map, List.all_eq_true]
+    intro f hf
+    obtain ⟨r, hr, hfi⟩ := failsIn_of_mem_failuresOf h f (List.mem_eraseDups.1 hf)
+    obtain ⟨l, c, hfs, _⟩ := first_seen_exists h r f hr hfi
+    have h1 := statistic_keeps_every_failure h hid r f hr hfi
+    have h2 := (statistic_failure_with_its_request h hid f l c hfs).1
+    simp [hfs, h1, h2]
+  · simp only [invented, List.filter_eq_nil_iff]
+    intro f hf
+    obtain ⟨r, hr, c, hc, s, hs⟩ := (statistic_reports_nothing_else h hid f).2 hf
+    have : f ∈ failuresOf h := by
+      simp only [failuresOf, List.mem_flatMap, List.mem_filterMap]
+      exact ⟨r, hr, c, hc, some (f, s), hs, rfl⟩
+    simp [this]
+
+/-- the case counters: `total_cases`, `cases_without_checks` count the cases of the history, and with distinct case
+    ids `cases_with_failures` is the number of groups in the store -/
+theorem statistic_counters (h : List Recorder) :
+    (run h).total = casesTotal h ∧ (run h).withoutChecks = casesWithoutChecks h ∧
+      ((caseIds h).Nodup → (run h).withFailures = groupCount (run h).failures) := by
+  refine ⟨by simp [run, foldl_total, Stat.init], by simp [run, foldl_withoutChecks, Stat.init], ?_⟩
+  intro hid
+  apply foldl_withFailures h Stat.init [] _ _ (by simpa using hid) (by simp [Stat.init, groupCount])
+  · intro f; simp [Stat.init, allF, ind, ndGet]
+  · intro lg hlg; simp [Stat.init] at hlg
+
+/-- **The hypothesis on case ids cannot be dropped**: two scenarios of one label that reuse a case id — the group of
+    the first is overwritten and its failure is gone. -/
+theorem distinct_case_ids_needed :
+    ∃ (h : List Recorder) (r : Recorder) (f : Nat), r ∈ h ∧ failsIn r f ∧ (allF (run h).failures).count f = 0 :=
+  ⟨[⟨3, [⟨10, [some (7, 100)], some 50⟩]⟩, ⟨3, [⟨10, [some (8, 101)], some 51⟩]⟩],
+   ⟨3, [⟨10, [some (7, 100)], some 50⟩]⟩, 7, by simp, ⟨⟨10, [some (7, 100)], some 50⟩, by simp, 100, by simp⟩, by decide⟩
+
+/-- **The class of the seeded change**: starting the per-label store of every scenario from an empty dict (instead of
+    what is stored under the label) loses the failure of the earlier scenario as soon as a later scenario of the same
+    label brings a new failure — with distinct case ids. -/
+theorem overwrite_variant_loses_failure :
+    ∃ (h : List Recorder) (r : Recorder) (f : Nat), (caseIds h).Nodup ∧ r ∈ h ∧ failsIn r f ∧
+      (allF (runV .empty h).failures).count f = 0 ∧ (allF (runV .stored h).failures).count f = 1 :=
+  ⟨[⟨3, [⟨10, [some (7, 100)], some 50⟩]⟩, ⟨3, [⟨11, [some (8, 101)], some 51⟩]⟩],
+   ⟨3, [⟨10, [some (7, 100)], some 50⟩]⟩, 7, by decide, by simp,
+   ⟨⟨10, [some (7, 100)], some 50⟩, by simp, 100, by simp⟩, by decide, by decide⟩
+
+/-- non-vacuity: two phases of one operation (label 3) failing differently, then two stateful scenarios (label 9)
+    where the second repeats a failure and brings a new one — every failure is held once, where it was first seen -/
+example : let h : List Recorder :=
+      [⟨3, [⟨10, [none, some (7, 100)], some 50⟩]⟩, ⟨3, [⟨11, [], none⟩, ⟨12, [some (7, 102), some (8, 102)], some 52⟩]⟩,
+       ⟨9, [⟨13, [some (5, 103)], some 53⟩]⟩, ⟨9, [⟨14, [some (5, 104)], some 54⟩, ⟨15, [some (6, 105), none], some 55⟩]⟩]
+    (caseIds h).Nodup ∧ (judge h (run h).failures) =
+      [⟨7, 1, some (3, 10), true⟩, ⟨8, 1, some (3, 12), true⟩, ⟨5, 1, some (9, 13), true⟩, ⟨6, 1, some (9, 15), true⟩] ∧
+    (run h).total = 6 ∧ (run h).withFailures = 4 ∧ (run h).withoutChecks = 1 := by decide
+
+/-! ### `ExecutionContext.on_event`: the store and the exit code of a whole stream -/
+
+open SV.Model.Plan in
+/-- The CLI context after a stream: its exit code is the fold `exitCode` of the engine model over the stream with the
+    recorders forgotten, and its store is the history of the recorders of the stream. -/
+theorem cli_context_spec (enabled : Nat → Bool) (evs : List CEv) :
+    (ctxRun enabled evs).exit = exitCode enabled (evs.map CEv.erase) ∧
+    (ctxRun enabled evs).stat = run (recorders evs) :=
+  ⟨foldl_onEvent_exit enabled evs {} rfl, foldl_onEvent_stat enabled evs {}⟩
+
+open SV.Model.Plan in
+/-- **A failing check reaches the report and the exit code.** In a stream (fresh case ids) containing a finished
+    scenario of phase `i` one of whose checks failed with `f`, and the closing event of that enabled phase with the
+    status FAILURE/ERROR (which `closed_as_failed` / `failing_scenario_gives_exit_1` establish for every schedule of
+    the unit phase), the CLI ends with exit code 1 and its store holds `f` exactly once, under the scenario and case
+    where it was first seen. -/
+theorem failure_reaches_report_and_exit (enabled : Nat → Bool) (evs : List CEv)
+    (hid : (caseIds (recorders evs)).Nodup) (i k : Nat) (st : Status) (r : Recorder) (f : Nat)
+    (hs : CEv.scenario i k st r ∈ evs) (hf : failsIn r f)
+    (hp : ∃ st' reason, CEv.plain (.phaseFinished i st' reason) ∈ evs ∧ enabled i = true ∧ st'.failing = true) :
+    (ctxRun enabled evs).exit = 1 ∧ (allF (ctxRun enabled evs).stat.failures).count f = 1 ∧
+      ∃ l c, firstSeen f (recorders evs) = some (l, c) ∧ heldAt (ctxRun enabled evs).stat.failures l c f = true := by
+  obtain ⟨he, hst⟩ := cli_context_spec enabled evs
+  obtain ⟨st', reason, hm, hen, hfl⟩ := hp
+  have hr := mem_recorders evs i k st r hs
+  refine ⟨?_, ?_, ?_⟩
+  · rw [he]
+    apply exitCode_of_mem_phaseFinished enabled _ i st' reason _ hen hfl
+    exact List.mem_map.2 ⟨_, hm, rfl⟩
+  · rw [hst]; exact statistic_keeps_every_failure _ hid r f hr hf
+  · obtain ⟨l, c, hfs, _⟩ := first_seen_exists _ r f hr hf
+    exact ⟨l, c, hfs, by rw [hst]; exact (statistic_failure_with_its_request _ hid f l c hfs).1⟩
+
+open SV.Model.Plan in
+/-- composition with the engine model: a CLI stream whose engine events are those of a plan whose first phase is an
+    enabled unit phase that (under any schedule) yielded a failing scenario or an error ends with exit code 1 -/
+theorem cli_exit_for_failing_unit_phase (v : Variant) (ops : List Script) (n : Nat) (m : Option Nat) (s : St)
+    (hm : m ≠ some 0) (hok : ∀ sc ∈ ops, ScriptOk sc)
+    (hr : Reach v (init ops n m) s) (hdone : s.c.pc = .done) (hstop : s.c.ctl.stop = false)
+    (hfail : (∃ i st, Ev.scenFinished i st ∈ s.c.out ∧ st.failing = true) ∨ ∃ i, Ev.nonFatal i ∈ s.c.out)
+    (runp : Nat → Ctl → PhaseRun) (p : PhaseCfg) (rest : List PhaseCfg) (ctl : Ctl)
+    (hen : p.enabled = true) (hgo : ctl.hasToStop = false) (hrun : runp p.idx ctl = phaseRunOf s.c)
+    (enabled : Nat → Bool) (hen' : enabled p.idx = true)
+    (evs : List CEv) (hevs : evs.map CEv.erase = execute runp ctl (p :: rest)) :
+    (ctxRun enabled evs).exit = 1 := by
+  rw [(cli_context_spec enabled evs).1, hevs]
+  exact failing_scenario_gives_exit_1 v ops n m s hm hok hr hdone hstop hfail runp p rest ctl hen hgo hrun enabled hen'
+
+/-- non-vacuity of `failure_reaches_report_and_exit`: a FUZZING-like phase 3 with a failing scenario, closed as
+    FAILURE -/
+example : let evs : List CEv :=
+      [.plain .engineStarted, .plain (.phaseStarted 3), .scenario 3 0 .failure ⟨1, [⟨10, [some (7, 100)], some 50⟩]⟩,
+       .plain (.phaseFinished 3 .failure none), .plain .engineFinished]
+    (caseIds (recorders evs)).Nodup ∧ (ctxRun (fun _ => true) evs).exit = 1 ∧
+      (allF (ctxRun (fun _ => true) evs).stat.failures) = [7] := by decide
+
+/-! ### `_execute`: the loop around `on_event` and the handlers, and `sys.exit` -/
+
+open SV.Model.Plan in
+/-- without a handler fault `_execute` exits with the fold of the engine model over the whole stream, and the handlers
+    have seen the context of the whole stream -/
+theorem cli_execute_no_fault (enabled : Nat → Bool) (evs : List CEv) :
+    executeCli enabled none evs = (.exit (exitCode enabled (evs.map CEv.erase)), ctxRun enabled evs) := by
+  unfold executeCli
+  rw [execLoop_none]
+  have := (cli_context_spec enabled evs).1
+  unfold ctxRun at this ⊢
+  rw [this]
+
+open SV.Model.Plan in
+/-- **Exit code 0 only for a clean run.** `_execute` ends with `sys.exit(0)` only if no handler raised while an event
+    was delivered (a fault in event handling is never swallowed) and the stream holds no NonFatalError and no enabled
+    phase finished FAILURE/ERROR. -/
+theorem cli_exit_zero_only_if_clean (enabled : Nat → Bool) (fault : Option (Nat × Bool)) (evs : List CEv)
+    (h : (executeCli enabled fault evs).1 = .exit 0) :
+    (∀ k ab, fault = some (k, ab) → evs.length ≤ k) ∧ exitCode enabled (evs.map CEv.erase) = 0 := by
+  obtain ⟨h1, h2⟩ := execLoop_exit0 enabled fault evs 0 {} h
+  refine ⟨?_, ?_⟩
+  · intro k ab hk
+    rcases h1 k ab hk with h | h
+    · omega
+    · omega
+  · rw [← (cli_context_spec enabled evs).1]; exact h2
+
+/-- non-vacuity: a clean stream exits 0; the same stream with a handler raising at event 1 does not; `click.Abort`
+    gives exit code 1 -/
+example : let evs : List CEv := [.plain .engineStarted, .scenario 3 0 .success ⟨1, [⟨10, [none], some 50⟩]⟩,
+      .plain (.phaseFinished 3 .success none), .plain .engineFinished]
+    (executeCli (fun _ => true) none evs).1 = .exit 0 ∧ (executeCli (fun _ => true) (some (1, false)) evs).1 = .raised ∧
+      (executeCli (fun _ => true) (some (1, true)) evs).1 = .exit 1 ∧
+      (executeCli (fun _ => true) (some (7, false)) evs).1 = .exit 0 := by decide
+
+end Store
 
 end SV.Props.C05
